@@ -70,7 +70,9 @@ CHECKS = {
              "sequential behaviour of its call from the value its context held at creation (C12_sequential_verdict), "
              "which is empty whenever the creator was not inside a check - also after it ran contracted code "
              "(C12_creator_clean = C11_restore). Tie: real asyncio tasks (context copy / fresh Context) and real threads "
-             "(fresh / copy_context().run) behind a turnstile, model vs implementation and spec_C12 on the implementation.",
+             "(fresh / copy_context().run) behind a turnstile - also a thread waiting inside a constructor or inside an "
+             "invariant of an instance its __new__ just made while others call or construct - model vs implementation "
+             "and spec_C12 on the implementation.",
         note=TB + "Trusted contextvars facts: a context is touched only by code running in it; a copy copies the mapping. "
              "Partial (named): pre-emption of threads inside the library's own statements is not exhibited by the "
              "turnstile; tasks spawned from inside a running check inherit that suspension by value (stated, not hidden).",
@@ -144,7 +146,8 @@ CHECKS = {
              "instance raised as is with nothing else called, factory called once with exactly the values it names "
              "and its result raised, non-exception result and missing names a TypeError (C09_default/_class/_instance/"
              "_factory), at most one factory call per contract and check (C09_factory_at_most_once); invalid error "
-             "arguments rejected at construction (C19_invalid_decorator). Tie: correspondence with spec_C09.",
+             "arguments rejected at construction (C19_invalid_decorator). Tie: correspondence with spec_C09; a raising "
+             "call whose body has not run is made a second time and must be the same call (events, outcome).",
         note=TB + "ViolationError <: AssertionError and the message text are checked by the harness, not modelled.",
         design="DESIGN.md section 6 C09"),
     "C13": dict(
@@ -172,7 +175,8 @@ CHECKS = {
              "(C15_source_facts, C15_asserts_effect_free). Tie: translator facts + subprocess matrix (3 modes x 5 "
              "environments x 84 rows, spec_C15 evaluated in Coq on each observation) + generated programs and generated "
              "histories of definitions with enabled=True spelled out, rerun under -O and -OO and compared with the normal "
-             "interpreter (which found D37: an assert statement that rejected a misuse in the normal mode only; fixed).",
+             "interpreter, and the violation messages of generated conditions compared line by line between the modes "
+             "(the histories found D37: an assert statement that rejected a misuse in the normal mode only; fixed).",
         note=TB + "The second sentence of the property (explicitly enabled contracts are enforced identically under -O) "
              "is decided by the effect-free-assert fact plus correspondence, not by a theorem about CPython's -O; an "
              "assert statement of the library that can fail on input a user can reach is a mode difference the "
@@ -183,7 +187,8 @@ CHECKS = {
              "C16_invariants_outermost); groups tried in order until one holds, each stops at its first falsy "
              "condition, error of the first falsy one of the last group / first falsy postcondition (C16_groups, "
              "C16_first_falsy_postcondition); each condition at most once per check, a lambda once more, each factory "
-             "at most once (C16_at_most_once); base lists precede own (Proofs/ElabRefine.v). Tie: spec_C16 + spec_C04.",
+             "at most once (C16_at_most_once); base lists precede own (Proofs/ElabRefine.v). Tie: spec_C16 + spec_C04 + "
+             "spec_C16_after (after a body that returned every invariant has been evaluated, in list order).",
         note=TB, design="DESIGN.md section 6 C16"),
     "C17": dict(
         text="Theorems over the heap model of Model/Elab.v where aliasing is explicit: decorating a function with any "
@@ -202,7 +207,8 @@ CHECKS = {
         text="Theorems: judging a call by hand over the introspected lists (DNF, then CNF on the result) gives the "
              "verdict of the call (C18_manual_precondition_verdict, C18_manual_postcondition_verdict). Tie: the lists "
              "found through find_checker equal the effective contracts computed from the declarations (spec_C04); find_checker returns the wrapper whose code evaluates the contracts (spec_C18_introspection); every "
-             "class created through DBCMeta is announced exactly once, in order (spec_C18_registered).",
+             "class created through DBCMeta is announced exactly once, in order (spec_C18_registered); the members a class "
+             "shows as checked are the ones its invariants select (spec_C03_selection).",
         note=TB + "Registration: C18_registered_are_the_meta_classes (in every reachable world the registrations are the "
              "numbers of the meta classes, ascending; Proofs/ElabRegistered.v) plus the correspondence.", design="DESIGN.md section 6 C18"),
     "C19": dict(
